@@ -643,6 +643,8 @@ impl ClusterHandler for NocHandler {
 
         let mut updated_fab_idx = None;
 
+        let mut persist = FabricPersist::new(ctx.kv());
+
         let status = NodeOperationalCertStatusEnum::map(ctx.exchange().with_state(|state| {
             let sess = ctx.exchange().id().session(&mut state.sessions);
 
@@ -671,8 +673,16 @@ impl ClusterHandler for NocHandler {
 
             updated_fab_idx = Some(fabric.fab_idx().get());
 
+            // As with the other fabric mutations: if the failsafe is armed for our fabric, the change
+            // is persisted only once commissioning is complete (and is lost if the failsafe expires)
+            if !state.failsafe.is_armed_for(fab_idx.get()) {
+                persist.store(fabric)?;
+            }
+
             Ok(())
         }))?;
+
+        persist.run()?;
 
         // UpdateFabricLabel mutates the Fabrics list
         ctx.notify_own_cluster_changed();
